@@ -1,7 +1,7 @@
 """C11 - runs are deterministic and independent of process history.
 
 Search over run histories issued through the programmatic entry point in ONE
-process: every sequence of <=2 (thorough <=3) runs from an alphabet of 8 run
+process: every sequence of <=2 (thorough <=3) runs from an alphabet of 9 run
 descriptors (successful and failing) is executed in a fresh child process;
 each run's PQR bytes must equal the bytes the same run produces alone in a
 fresh process.  After every run a structural fingerprint of pdb2pqr's
@@ -20,7 +20,7 @@ from .. import build, engine, pipeline
 PROPERTY = "C11"
 LEVEL = "model_checking"
 RULE = (
-    "all histories of length <=2 (thorough <=3) over an 8-run alphabet, each "
+    "all histories of length <=2 (thorough <=3) over a 9-run alphabet, each "
     "in its own fresh process, plus every run alone under hash seeds 0,1,2 "
     "and a seed-derived one; states = distinct process-state fingerprints, "
     "transitions = distinct (fingerprint, run, fingerprint') edges; "
@@ -35,13 +35,13 @@ ASSUMPTIONS = [
     "process with PYTHONHASHSEED=0",
 ]
 BOUND = {
-    "quick": "8 single runs x 4 hash seeds; all 64 histories of length 2",
-    "thorough": "quick + all 512 histories of length 3 + 8 hash seeds",
+    "quick": "9 single runs x 4 hash seeds; all 81 histories of length 2",
+    "thorough": "quick + all 729 histories of length 3 + 8 hash seeds",
 }
 
 ETHANOL = (engine.REPO / "tests/data/ethanol.mol2")
 RUNS = ["pep_amber", "pep_parse_opts", "strand_charmm", "titrated",
-        "ligand", "clean", "fail_parse", "fail_charge"]
+        "ligand", "clean", "fail_parse", "fail_charge", "userff_ok"]
 
 
 def execute(rid):
@@ -103,6 +103,14 @@ def execute(rid):
     if rid == "fail_parse":
         text = "ATOM      1  N   ALA A   1      xx.xxx   0.000   0.000\nEND\n"
         return pipeline.run(text, ["--ff=AMBER"]), meta
+    if rid == "userff_ok":
+        # a second, different user force-field pair (the bundled one)
+        atoms = build.build_peptide(["GLY", "SER", "LYS"])
+        dat = (engine.REPO / "tests/data/custom-ff.dat").read_text()
+        names = (engine.REPO / "tests/data/custom.names").read_text()
+        return pipeline.run(build.pdb_text(atoms),
+                            ["--userff=@v.dat", "--usernames=@v.names"],
+                            files={"v.dat": dat, "v.names": names}), meta
     if rid == "fail_charge":
         # user force field with a fractional charge -> non-integral total
         atoms = build.build_peptide(["GLY", "GLY", "GLY"])
